@@ -339,10 +339,12 @@ macro_rules! menu {
     };
 }
 
+// widths 8..8192 bits for every digit type (the widest instantiation of each digit type is 8192 bits), including
+// 24, 40, 96, 136, 192, 320 and other widths that are not powers of two
 menu! {
-    BUintD8, BIntD8 : 1, 2, 3, 4, 5, 8, 16, 17, 40;
-    BUintD16, BIntD16 : 1, 2, 3, 6, 12, 20;
-    BUintD32, BIntD32 : 1, 2, 3, 6, 10, 16;
+    BUintD8, BIntD8 : 1, 2, 3, 4, 5, 8, 16, 17, 40, 320, 1024;
+    BUintD16, BIntD16 : 1, 2, 3, 6, 12, 20, 512;
+    BUintD32, BIntD32 : 1, 2, 3, 6, 10, 16, 256;
     BUint, BInt : 1, 2, 3, 5, 8, 64, 128;
 }
 
